@@ -7,7 +7,7 @@
      W tb | cur | ops                   -> a history on harper_wasm::Linter
    tb  = "c f l1 l2 ..", ..   (char, is_lowercase, to_lowercase)      cur = "dok c1 c2 ..", ..
    urls = "p cps" | "u cps", ..
-   ops(H): "a : .w" add user | "f i : .w" add file(url i) | "l i : .t,.t" lint | "r" restart
+   ops(H): "s a : c cps" / "s f i : c cps" the dictionary file is written by hand | "a : .w" add user | "f i : .w" add file(url i) | "l i : .t,.t" lint | "r" restart
            | "k a : .w : obs" / "k f i : .w : obs"  crash during the add; obs = what was found on disk afterwards:\n             "n" (no file) | "c cps" (text) | "t cps" (text followed by a cut UTF-8 sequence)
    ops(W): "i : .w,.w" | "l : .t,.t" | "e" *)
 let split c s = List.map String.trim (String.split_on_char c s)
@@ -85,6 +85,10 @@ let history tb cur urls ops =
     | ["l"; i] ->
         (match one (LintDoc (urls_a.(int_of_string i), words_of_field (arg 1))) with
          | [fl] -> show_flags fl | _ -> "?")
+    | "s" :: sc ->
+        (* a dictionary file written by hand *)
+        let sc = (match sc with ["a"] -> SUser | ["f"; i] -> SFile urls_a.(int_of_string i) | _ -> failwith "bad scope") in
+        st := x_crash_state sc !st (content_of (arg 1)); "s"
     | ["r"] -> ignore (one Restart); "r"
     | "k" :: sc ->
         let sc = (match sc with ["a"] -> SUser | ["f"; i] -> SFile urls_a.(int_of_string i) | _ -> failwith "bad scope") in
